@@ -66,34 +66,34 @@ the counter equal to the burst length (a later successful `send` resets it, `sen
 theorem eagain_tolerated (env : Env) (hne : NoEscape env) (k : Nat) (hk : k ≤ 121) (w : World)
     (rs : List SendRes)
     (hc : w.connected = true) (hz : w.zombie = false) (hi : w.ircZombie = false) (hcr : w.crashed = none)
-    (hob : w.outbuffer ≠ []) (he : w.eagains = 0)
+    (hpd : w.pingDue = false) (hob : w.outbuffer ≠ []) (he : w.eagains = 0)
     (hs : w.sendScript = List.replicate k (.error 11) ++ rs) :
     (sendN env k w).connected = true ∧ (sendN env k w).wire = w.wire ∧
     (sendN env k w).outbuffer ++ utf8 (sendN env k w).queue.flatten = w.outbuffer ++ utf8 w.queue.flatten ∧
     (sendN env k w).eagains = k ∧ (sendN env k w).sendScript = rs := by
-  have := sendN_eagain_burst hne k w rs hc hz hi hcr hob (by omega) hs
+  have := sendN_eagain_burst hne k w rs hc hz hi hcr hpd hob (by omega) hs
   simpa [he] using this
 
 /-- … and the 122nd consecutive EAGAIN disconnects (the bound in the code is `eagains > 120`). -/
 theorem eagain_limit (env : Env) (hne : NoEscape env) (w : World) (rs : List SendRes)
     (hc : w.connected = true) (hz : w.zombie = false) (hi : w.ircZombie = false) (hcr : w.crashed = none)
-    (hob : w.outbuffer ≠ []) (he : w.eagains > 120) (hs : w.sendScript = .error 11 :: rs) :
+    (hpd : w.pingDue = false) (hob : w.outbuffer ≠ []) (he : w.eagains > 120) (hs : w.sendScript = .error 11 :: rs) :
     (sendIfMsgs env w).connected = false ∧ (sendIfMsgs env w).wire = w.wire :=
-  sendIfMsgs_eagain_limit hne w rs hc hz hi hcr hob he hs
+  sendIfMsgs_eagain_limit hne w rs hc hz hi hcr hpd hob he hs
 
 example : ∃ w : World, w.connected = true ∧ w.zombie = false ∧ w.ircZombie = false ∧ w.crashed = none ∧
-    w.outbuffer ≠ [] ∧ w.eagains = 0 ∧ w.sendScript = List.replicate 121 (.error 11) ++ [.sent 1] :=
-  ⟨{ outbuffer := [65], sendScript := List.replicate 121 (.error 11) ++ [.sent 1] }, rfl, rfl, rfl, rfl,
+    w.pingDue = false ∧ w.outbuffer ≠ [] ∧ w.eagains = 0 ∧ w.sendScript = List.replicate 121 (.error 11) ++ [.sent 1] :=
+  ⟨{ outbuffer := [65], sendScript := List.replicate 121 (.error 11) ++ [.sent 1] }, rfl, rfl, rfl, rfl, rfl,
     by simp, rfl, rfl⟩
 
 /-- **Progress**: when every `send()` accepts at least one byte, `len + 1` calls of
 `_sendIfMsgs` empty the queue and the out-buffer (so `write_exact_drained` applies). -/
 theorem drains (env : Env) (hne : NoEscape env) (k : Nat) (w : World)
     (hc : w.connected = true) (hz : w.zombie = false) (hi : w.ircZombie = false) (hcr : w.crashed = none)
-    (hp : Positive w.sendScript) (hk : (w.outbuffer ++ utf8 w.queue.flatten).length ≤ k) :
+    (hpd : w.pingDue = false) (hp : Positive w.sendScript) (hk : (w.outbuffer ++ utf8 w.queue.flatten).length ≤ k) :
     (sendN env (k + 1) w).outbuffer = [] ∧ (sendN env (k + 1) w).queue = [] ∧
     (sendN env (k + 1) w).connected = true :=
-  sendN_drains hne k w hc hz hi hcr hp hk
+  sendN_drains hne k w hc hz hi hcr hpd hp hk
 
 example : Positive [.sent 1, .sent 3, .sent 1] := by
   intro r hr
@@ -187,6 +187,23 @@ theorem reconnect_drops_rest_of_chunk (env : Env) (hne : NoEscape env) (l : Byte
   rw [e]
   unfold reconnect
   cases wait <;> exact ⟨rfl, rfl, rfl, rfl, rfl, rfl⟩
+
+/-- **A ping time-out inside the `takeMsg` loop** (fix 67d65e0): what was queued and taken for the
+connection that is dropped is dropped with it — the new connection starts with an empty out-buffer,
+nothing accepted by its socket, and only what `Irc.reset()` queued. -/
+theorem ping_timeout_reconnect_clean (env : Env) (hne : NoEscape env) (w : World)
+    (hc : w.connected = true) (hz : w.zombie = false) (hp : w.pingDue = true) :
+    sendIfMsgs env w = reconnect env false w ∧ (sendIfMsgs env w).outbuffer = [] ∧
+    (sendIfMsgs env w).wire = [] ∧ (sendIfMsgs env w).connected = true ∧
+    (sendIfMsgs env w).queue = (if w.ircZombie then [] else env.onReset) ∧
+    (sendIfMsgs env w).pastWires = w.pastWires ++ [w.wire] := by
+  have e : sendIfMsgs env w = reconnect env false w := by
+    unfold sendIfMsgs
+    rw [hne.2.1 w.queue]
+    simp [hc, hz, hp]
+  rw [e]
+  unfold reconnect
+  simp [hc]
 
 /-- the correspondence environment: the stub Irc reconnects on `ERROR :Closing link…` -/
 def driverEnv : Env := { timeOk := fun _ => true, react := pingPong, reconnects := errorReconnect }
